@@ -1,6 +1,7 @@
 (** Proofs about the chain-service acceptance pipeline (C09, coq/Dpos/Accept.v). *)
 From Coq Require Import ZArith List Bool Lia.
-From Verif Require Import Dpos.Slot Dpos.SlotProofs Dpos.Accept.
+From Verif Require Import Dpos.Slot Dpos.SlotProofs.
+From Verif Require Import Dpos.Accept.
 Import ListNotations.
 Open Scope Z_scope.
 
@@ -29,14 +30,15 @@ Section Proofs.
   Variable cluster_of : Z -> list Z.
   Variable cap : nat.
   Variable genesis : block.
+  Variable f42 : bool.
 
   Notation exec_block := (exec_block iv cluster_of genesis).
   Notation run_main := (run_main iv cluster_of genesis).
   Notation rollforward := (rollforward iv cluster_of genesis).
-  Notation reorg := (reorg iv cluster_of genesis).
-  Notation add_internal := (add_internal iv cluster_of cap genesis).
-  Notation arrive := (arrive iv cluster_of cap genesis).
-  Notation run := (run iv cluster_of cap genesis).
+  Notation reorg := (reorg iv cluster_of genesis f42).
+  Notation add_internal := (add_internal iv cluster_of cap genesis f42).
+  Notation arrive := (arrive iv cluster_of cap genesis f42).
+  Notation run := (run iv cluster_of cap genesis f42).
   Notation best := (best genesis).
   Notation init := (init genesis).
 
@@ -250,7 +252,11 @@ Section Proofs.
     assert (Hrev : Forall ok_blk (rev news)).
     { rewrite Forall_forall in *. intros x Hx. apply Hnews. apply in_rev. exact Hx. }
     destruct (rollforward_inv _ _ _ _ _ HI1 Hrev RF) as (HI2 & Es2 & Em2 & Eo2 & Hv2).
-    destruct (is_err r2) eqn:ER; inversion E; subst; [exact HI2|].
+    destruct (is_err r2) eqn:ER.
+    { destruct f42; inversion E; subst; [|exact HI2].
+      destruct HI2 as (Ho2 & Hs2 & Hm2 & Hu2). repeat split; cbn; try assumption.
+      exists (best s2). split; [apply best_ok; exact Hm2|reflexivity]. }
+    inversion E; subst.
     destruct HI2 as (Ho2 & Hs2 & Hm2 & Hu2). repeat split; cbn; try assumption.
     apply Forall_app. split.
     - specialize (Hv2 eq_refl). rewrite Forall_forall in *. intros x Hx.
@@ -322,6 +328,7 @@ Section Legit.
   Variable cluster_of : Z -> list Z.
   Variable cap : nat.
   Variable genesis : block.
+  Variable f42 : bool.
 
   (** b passed VerifyTimestamp (not two or more slots ahead of the clock [now] of one of its
       arrivals), ValidChildOf and VerifySign. *)
@@ -331,7 +338,7 @@ Section Legit.
                 is_future (from_unix_ns iv (b_ts b)) (from_unix_ns iv now) = false.
 
   Lemma reachable_inv evs :
-    Inv iv cluster_of genesis (vetted evs) (run iv cluster_of cap genesis evs (init genesis)).
+    Inv iv cluster_of genesis (vetted evs) (run iv cluster_of cap genesis f42 evs (init genesis)).
   Proof.
     apply run_inv; [apply inv_init|].
     intros b now Hin (F & C & Sg). repeat split; try assumption. exists now. split; assumption.
@@ -343,7 +350,7 @@ Section Legit.
       timestamp in the producer set in force after a block [ub] that is the genesis block or
       was itself vetted. *)
   Theorem accepted_blocks_legitimate evs b :
-    In b (n_main (run iv cluster_of cap genesis evs (init genesis))) -> b <> genesis ->
+    In b (n_main (run iv cluster_of cap genesis f42 evs (init genesis))) -> b <> genesis ->
     vetted evs b /\
     exists ub, (ub = genesis \/ vetted evs ub) /\
                is_block_valid Z.eqb iv (cluster_of (b_id ub)) (b_signer b) (b_ts b) = true.
@@ -356,14 +363,14 @@ Section Legit.
   (** Every block in the chain DB (main chain AND stored side branches) and every parked
       orphan passed the signature and clock tests: the orphan-pool invariant. *)
   Theorem stored_blocks_vetted evs b :
-    In b (n_store (run iv cluster_of cap genesis evs (init genesis))) -> b <> genesis -> vetted evs b.
+    In b (n_store (run iv cluster_of cap genesis f42 evs (init genesis))) -> b <> genesis -> vetted evs b.
   Proof.
     intros Hin Hne. destruct (reachable_inv evs) as (_ & Hs & _ & _).
     rewrite Forall_forall in Hs. destruct (Hs b Hin) as [H|H]; [contradiction|exact H].
   Qed.
 
   Theorem parked_blocks_vetted evs b :
-    In b (n_orph (run iv cluster_of cap genesis evs (init genesis))) -> vetted evs b.
+    In b (n_orph (run iv cluster_of cap genesis f42 evs (init genesis))) -> vetted evs b.
   Proof.
     intros Hin. destruct (reachable_inv evs) as (Ho & _). rewrite Forall_forall in Ho. exact (Ho b Hin).
   Qed.
@@ -372,7 +379,7 @@ Section Legit.
       the slot; in particular a member, and the only key valid for that timestamp. *)
   Theorem accepted_signer_owns_slot evs b :
     0 < iv -> (forall u, cluster_of u <> [] /\ Z.of_nat (length (cluster_of u)) <= index_nil) ->
-    In b (n_main (run iv cluster_of cap genesis evs (init genesis))) -> b <> genesis -> 0 <= b_ts b ->
+    In b (n_main (run iv cluster_of cap genesis f42 evs (init genesis))) -> b <> genesis -> 0 <= b_ts b ->
     exists ub, (ub = genesis \/ vetted evs ub) /\
       let ids := cluster_of (b_id ub) in
       nth_error ids (Z.to_nat (Z.rem (next_index iv (ns_to_ms (b_ts b))) (Z.of_nat (length ids)))) = Some (b_signer b)
@@ -401,34 +408,35 @@ Definition ex_cl (_ : Z) : list Z := [10; 20; 30].
 Definition ex_now : Z := 6000 * 1000000.
 
 Example ex_forged_orphan_refused :
-  let s := run 1000 ex_cl 3 ex_g [Arrive ex_b2 ex_now; Arrive ex_b3 ex_now; Arrive ex_b1 ex_now; Arrive ex_b2 ex_now] (init ex_g) in
+  let s := run 1000 ex_cl 3 ex_g false [Arrive ex_b2 ex_now; Arrive ex_b3 ex_now; Arrive ex_b1 ex_now; Arrive ex_b2 ex_now] (init ex_g) in
   map b_id (n_main s) = [3; 1; 0] /\ n_orph s = [] /\ n_errs s = [2] /\
-  snd (fst (arrive 1000 ex_cl 3 ex_g (init ex_g) ex_b2 ex_now)) = R_badsig.
+  snd (fst (arrive 1000 ex_cl 3 ex_g false (init ex_g) ex_b2 ex_now)) = R_badsig.
 Proof. vm_compute. repeat split. Qed.
 
 (** the hypotheses of [accepted_blocks_legitimate] / [accepted_signer_owns_slot] are met by a
     state with a non-genesis main-chain block *)
 Example ex_legit_nonvacuous :
-  In ex_b3 (n_main (run 1000 ex_cl 3 ex_g [Arrive ex_b3 ex_now; Arrive ex_b1 ex_now] (init ex_g))) /\ ex_b3 <> ex_g.
+  In ex_b3 (n_main (run 1000 ex_cl 3 ex_g false [Arrive ex_b3 ex_now; Arrive ex_b1 ex_now] (init ex_g))) /\ ex_b3 <> ex_g.
 Proof. split; [vm_compute; left; reflexivity|discriminate]. Qed.
 
 (* ================================================================== *)
 (** Second part: WHICH producer set a main-chain block was validated against.  As long as no
     reorganisation has failed in rollforward, it is the set in force after the block's own
-    parent; after a failed rollforward it need not be (refuted below: known finding F41). *)
+    parent; after a failed rollforward it need not be (refuted below: known finding F42). *)
 Section Parent.
   Variable iv : Z.
   Variable cluster_of : Z -> list Z.
   Variable cap : nat.
   Variable genesis : block.
+  Variable f42 : bool.
 
   Notation exec_block := (exec_block iv cluster_of genesis).
   Notation run_main := (run_main iv cluster_of genesis).
   Notation rollforward := (rollforward iv cluster_of genesis).
-  Notation reorg := (reorg iv cluster_of genesis).
-  Notation add_internal := (add_internal iv cluster_of cap genesis).
-  Notation arrive := (arrive iv cluster_of cap genesis).
-  Notation run := (run iv cluster_of cap genesis).
+  Notation reorg := (reorg iv cluster_of genesis f42).
+  Notation add_internal := (add_internal iv cluster_of cap genesis f42).
+  Notation arrive := (arrive iv cluster_of cap genesis f42).
+  Notation run := (run iv cluster_of cap genesis f42).
   Notation best := (best genesis).
   Notation init := (init genesis).
 
@@ -622,7 +630,7 @@ Section Parent.
   Proof. unfold last_id. cbn [rev]. rewrite fold_left_app. reflexivity. Qed.
 
   Lemma reorg_J s top s' r c :
-    J s -> reorg s top = (s', r, c) -> r <> R_reorg_fwd -> J s'.
+    J s -> reorg s top = (s', r, c) -> f42 = true \/ r <> R_reorg_fwd -> J s'.
   Proof.
     intros (Hl & Hu) E Hr. unfold Accept.reorg in E.
     destruct (gather genesis (S (length (n_store s))) s top [] []) as [[root news]|] eqn:G;
@@ -630,11 +638,14 @@ Section Parent.
     destruct (gather_chain _ s top [] [] root news I G) as (Hc & (m & Hm & Em) & Hne).
     destruct (rollforward (with_upd s (b_id root)) (rev news)) as [[s2 r2] c2] eqn:RF.
     destruct (rollforward_valid _ _ _ _ _ RF) as (Em2 & Hr2 & Hv2).
-    destruct Hr2 as [-> | ->];
-      [change (is_err R_ok) with false in E|change (is_err R_reorg_fwd) with true in E]; cbv iota in E;
-      inversion E; subst; [|contradiction].
-    destruct (Hv2 eq_refl) as [Hv Hu2]. cbn [n_upd with_upd] in Hv, Hu2.
     cbn [n_main with_upd] in Em2.
+    destruct Hr2 as [-> | ->];
+      [change (is_err R_ok) with false in E|change (is_err R_reorg_fwd) with true in E]; cbv iota in E.
+    2:{ destruct f42; inversion E; subst.
+        - split; cbn [n_main n_upd with_upd]; [rewrite Em2; exact Hl|reflexivity].
+        - destruct Hr as [Hr|Hr]; [discriminate|contradiction]. }
+    inversion E; subst.
+    destruct (Hv2 eq_refl) as [Hv Hu2]. cbn [n_upd with_upd] in Hv, Hu2.
     destruct (drop_until_head (b_id root) (n_main s) m Hm Em) as (h & t & Ed & Eh).
     split; cbn [n_main n_upd with_main].
     - rewrite Em2, Ed. rewrite <- (rev_involutive news). apply linked_rev_app.
@@ -646,7 +657,7 @@ Section Parent.
   Qed.
 
   Lemma add_internal_J s b now s' r c cache :
-    J s -> add_internal s b now = (s', r, c, cache) -> r <> R_reorg_fwd -> J s'.
+    J s -> add_internal s b now = (s', r, c, cache) -> f42 = true \/ r <> R_reorg_fwd -> J s'.
   Proof.
     intros HJ E Hr. unfold Accept.add_internal in E.
     destruct (is_future (from_unix_ns iv (b_ts b)) (from_unix_ns iv now)); [inversion E; subst; exact HJ|].
@@ -669,7 +680,7 @@ Section Parent.
   Qed.
 
   Lemma arrive_J s b now s' r c :
-    J s -> arrive s b now = (s', r, c) -> r <> R_reorg_fwd -> J s'.
+    J s -> arrive s b now = (s', r, c) -> f42 = true \/ r <> R_reorg_fwd -> J s'.
   Proof.
     intros HJ E Hr. unfold Accept.arrive in E.
     destruct (mem_z (b_id b) (n_errs s)); [inversion E; subst; exact HJ|].
@@ -688,12 +699,14 @@ Section Parent.
         snd (fst (arrive s b now)) <> R_reorg_fwd /\ no_failed_rollforward tl (fst (fst (arrive s b now)))
     end.
 
-  Lemma run_J evs : forall s, J s -> no_failed_rollforward evs s -> J (run evs s).
+  Lemma run_J evs : forall s, J s -> f42 = true \/ no_failed_rollforward evs s -> J (run evs s).
   Proof.
     induction evs as [|[b now] tl IH]; intros s HJ H; cbn [Accept.run]; [exact HJ|].
-    cbn [no_failed_rollforward] in H. destruct H as [H1 H2].
+    cbn [no_failed_rollforward] in H.
     destruct (arrive s b now) as [[s1 r] c] eqn:A. cbn [fst snd] in *.
-    apply IH; [|exact H2]. eapply arrive_J; eassumption.
+    apply IH.
+    - eapply arrive_J; [exact HJ|exact A|]. destruct H as [H|[H _]]; [left|right]; exact H.
+    - destruct H as [H|[_ H]]; [left|right]; exact H.
   Qed.
 
   Lemma linked_at : forall l pre b p post,
@@ -708,7 +721,7 @@ Section Parent.
       the block below it and its signer owns its slot in the producer set in force after THAT
       parent (the "current" set of the property). *)
   Theorem connected_validated_against_parent_partial evs pre b p post :
-    no_failed_rollforward evs init ->
+    f42 = true \/ no_failed_rollforward evs init ->
     n_main (run evs init) = pre ++ b :: p :: post ->
     b_parent b = b_id p /\
     is_block_valid Z.eqb iv (cluster_of (b_id p)) (b_signer b) (b_ts b) = true.
@@ -740,7 +753,7 @@ Definition rf_evs : list event :=
 
 Theorem connected_validated_against_parent_refuted :
   exists iv cluster_of cap genesis evs pre b p post,
-    n_main (run iv cluster_of cap genesis evs (init genesis)) = pre ++ b :: p :: post /\
+    n_main (run iv cluster_of cap genesis false evs (init genesis)) = pre ++ b :: p :: post /\
     b_parent b = b_id p /\
     is_block_valid Z.eqb iv (cluster_of (b_id p)) (b_signer b) (b_ts b) = false /\
     ~ In (b_signer b) (cluster_of (b_id p)).
@@ -751,8 +764,8 @@ Proof.
 Qed.
 
 Example ex_partial_nonvacuous :
-  no_failed_rollforward 1000 rf_cl 3 rf_g [Arrive rf_b1 rf_now; Arrive rf_b2 rf_now] (init rf_g) /\
-  n_main (run 1000 rf_cl 3 rf_g [Arrive rf_b1 rf_now; Arrive rf_b2 rf_now] (init rf_g)) = [] ++ rf_b2 :: rf_b1 :: [rf_g].
+  no_failed_rollforward 1000 rf_cl 3 rf_g false [Arrive rf_b1 rf_now; Arrive rf_b2 rf_now] (init rf_g) /\
+  n_main (run 1000 rf_cl 3 rf_g false [Arrive rf_b1 rf_now; Arrive rf_b2 rf_now] (init rf_g)) = [] ++ rf_b2 :: rf_b1 :: [rf_g].
 Proof. vm_compute. repeat split; discriminate. Qed.
 
 (* ================================================================== *)
